@@ -8,12 +8,22 @@
    table; the side conditions are a boolean certificate (Gram/LalrCert.v: aut_cert / la_cert) that is evaluated
    on the reference construction for every generated grammar; (2) the cell/conflict layer.
    (3) build_loop creates only states justified by a symbol string (C03_build_loop_sound).
-   NOT proved: that build_automaton (incl. add_finals) passes aut_cert for every grammar and fuel - completeness
-   of the LR(0) collection and of closure depends on fuel; the certificate is evaluated per grammar instead. *)
+   (4) The automaton clauses of the certificate are THEOREMS about the reference construction: for every grammar
+   whose rule heads are nonterminals and whose right-hand sides consist of symbols (wf_grammar) and every fuel with
+   which build_loop emptied its work list (ref_done - a boolean mirror of the loop), closure reaches its fixpoint
+   (C03_closure_closed), build_loop yields the complete LR(0) collection and add_finals (private copy of the
+   accepting state, synthesized final / after-EOI states) preserves what the LALR(1) theorems need
+   (C03_reference_automaton_ok).  la_fix returns a stable table unless its fuel ran out (C03_la_fix_stable_or_fuel).
+   first_sets and nullable_set always reach their fixpoints (C03_first_sets_closed, C03_nullable_set_closed).
+   Hence the reference's lookahead table is exactly LALR(1) under the LIGHT certificate ref_cert_light =
+   wf_grammar && ref_done && la_stable (C03_reference_is_LALR1); only these three are still evaluated per grammar.
+   NOT proved: that the fuel always suffices (ref_done / la_stable for the fuel 400 the glue uses: the number of
+   LR(0) states is exponential in the grammar in general). *)
 From Coq Require Import List ZArith Bool.
 From TM Require Import Gram.Derive.
 From TM Require Import Gram.Cfg Gram.LalrRef Gram.Prec Gram.Prec_proofs Gram.PTables Gram.LalrTables.
 From TM Require Import Gram.LalrSpec Gram.LalrSpec_proofs Gram.LalrSpec_proofs2 Gram.LalrSpec_proofs3 Gram.LalrCert Gram.LalrCert_proofs Gram.LalrBuild_proofs Gram.LalrTables_proofs Gram.LalrRefute_proofs Gram.CfgFix_proofs.
+From TM Require Import Gram.LalrDone Gram.FirstFix_proofs Gram.LalrClosure_proofs Gram.LalrFix_proofs Gram.LalrLoop_proofs Gram.LalrFinals_proofs Gram.LalrRef_proofs.
 Import ListNotations.
 Local Open Scope Z_scope.
 
@@ -66,7 +76,7 @@ Proof. exact lalr_la_complete. Qed.
 
 (* nullable_set always reaches its fixpoint when the rule heads are nonterminals in range (bounded inflationary
    iteration), so the nullable hypothesis of the completeness theorem can be dropped for such grammars.  (The
-   same for first_sets and for the fuel of closure is not proved; both are decided by the certificate.) *)
+   same for first_sets and for the fuel of closure: C03_first_sets_closed, C03_closure_closed below.) *)
 Theorem C03_nullable_set_closed :
   forall g, (forall r, In r (g_rules g) -> g_terms g <= r_lhs r < g_terms g + g_nonterms g) ->
   nullable_closed g (nullable_set g) = true.
@@ -100,6 +110,78 @@ Theorem C03_build_loop_sound :
                   (forall it, In it (s_kernel st) -> lr0_kernel g i gamma it) /\
                   (forall it, In it (closure g (s_kernel st) (s_seed st)) -> lr0_valid g i gamma it).
 Proof. exact build_loop_sound. Qed.
+
+(* ---------- the certificate clauses as theorems about the reference construction ---------- *)
+(* first_sets always reaches its fixpoint within its S(N*T) rounds: FIRST is closed under the rules. *)
+Theorem C03_first_sets_closed :
+  forall g, (forall r, In r (g_rules g) -> g_terms g <= r_lhs r < g_terms g + g_nonterms g) ->
+  first_closed g (nullable_set g) (first_sets g) = true.
+Proof. exact first_sets_closed. Qed.
+
+(* closure always reaches its fixpoint within the S(N) rounds the model gives it (rule heads in range): the result
+   contains, with every item [A -> alpha . B beta], all items [B -> . delta]. *)
+Theorem C03_closure_closed :
+  forall g, (forall r, In r (g_rules g) -> g_terms g <= r_lhs r < g_terms g + g_nonterms g) ->
+  forall kernel seed it s r, In it (closure g kernel seed) -> sym_after g it = Some s -> is_term g s = false ->
+  In r (rules_of g s) -> In (r, 0) (closure g kernel seed).
+Proof. exact closure_closed. Qed.
+
+(* The LR(0) collection is complete whenever build_loop stopped because its work list was empty (ref_done, which
+   mirrors the recursion of build_loop and only reports whether the fuel ran out): the automaton before the final
+   states are added satisfies every hypothesis of the lookahead theorems and has a transition for every symbol
+   after a dot. *)
+Theorem C03_build_loop_complete :
+  forall g fuel, wf_grammar g = true -> ref_done g fuel = true ->
+  let a := build_loop fuel g (mkAut (map (fun inp => mkState [] (Some (fst inp)) 0) (g_inputs g)) []) 0 in
+  seeds_ok g a /\ aut_sound g a /\ starts_present g a /\ aut_complete g a /\ aut_total g a.
+Proof. exact build_loop_complete. Qed.
+
+(* ... and so does the automaton of build_automaton, i.e. after add_finals redirected the start state's transition
+   to a private copy of the accepting state and appended the synthesized final and after-EOI states.  These are
+   all consequences of aut_cert that the lookahead theorems use: no automaton clause is left to evaluate. *)
+Theorem C03_reference_automaton_ok :
+  forall g fuel, wf_grammar g = true -> ref_done g fuel = true ->
+  let a := fst (build_automaton g fuel) in
+  seeds_ok g a /\ aut_sound g a /\ starts_present g a /\ aut_complete g a /\ aut_total g a.
+Proof. exact build_automaton_ok. Qed.
+
+(* la_fix stops on a stable table or has used up its fuel, and then the table has at least `fuel` entries plus
+   lookaheads: la_stable of the certificate can fail only by lack of fuel. *)
+Theorem C03_la_fix_stable_or_fuel :
+  forall g a fuel,
+  la_stable g a (nullable_set g) (first_sets g) (lalr_la g a fuel) = true \/
+  (fuel <= length (lalr_la g a fuel) + la_size (lalr_la g a fuel))%nat.
+Proof. exact lalr_la_stable_or_fuel. Qed.
+
+(* Soundness of the reference's lookahead table needs no evaluated table clause at all. *)
+Theorem C03_reference_la_sound :
+  forall g fuel, wf_grammar g = true -> ref_done g fuel = true ->
+  let a := fst (build_automaton g fuel) in
+  forall fuel' q it x, In x (la_get (lalr_la g a fuel') q it) -> lalr1 g a q it x.
+Proof. exact ref_la_sound. Qed.
+
+(* Exactness under the light certificate (what the glue evaluates per grammar): grammar well-formed, work list
+   empty, table stable. *)
+Theorem C03_reference_is_LALR1 :
+  forall g fuel, ref_cert_light g fuel = true ->
+  let a := fst (build_automaton g fuel) in
+  forall q it x, In x (la_get (lalr_la g a fuel) q it) <-> lalr1 g a q it x.
+Proof. exact ref_la_exact. Qed.
+
+Theorem C03_reference_covers :
+  forall g fuel, ref_cert_light g fuel = true ->
+  let a := fst (build_automaton g fuel) in
+  forall i gamma it x, lr1_valid g i gamma it x ->
+  exists q, reach a i gamma q /\ In x (la_get (lalr_la g a fuel) q it).
+Proof. exact ref_la_covers. Qed.
+
+Theorem C03_reference_views_are_LALR1_light :
+  forall g fuel, ref_cert_light g fuel = true ->
+  let a := fst (build_automaton g fuel) in
+  forall q v, nth_error (ro_views (reference g fuel)) q = Some v ->
+  forall j r L, nth_error (v_reduce v) j = Some r -> nth_error (v_la_all v) j = Some L ->
+  forall x, In x L <-> lalr1 g a (Z.of_nat q) (r, rule_len g r) x.
+Proof. exact reference_views_la_light. Qed.
 
 (* The definition of LR(1)-validity used above always contains the textbook one (a single closure rule with
    b in FIRST(beta a)), and coincides with it when the grammar has a terminal and every symbol used in a rule
@@ -187,6 +269,22 @@ Example C03_classic_grammar_la_is_LALR1 :
   forall q it x, In x (la_get (lalr_la ex_g a 200) q it) <-> lalr1 ex_g a q it x.
 Proof. apply lalr_la_exact. vm_compute. reflexivity. Qed.
 
+(* the light certificate holds for the classic grammar, fails when the collection is cut short, and a grammar
+   whose start symbol is recursive (S -> S a | a: the accepting state gets a private copy) passes it too *)
+Example C03_light_certificate_on_the_classic_grammar :
+  ref_cert_light ex_g 200 = true /\ ref_cert_light ex_g 2 = false /\
+  ref_cert_light (mkGrammar 2 1 [mkRule 2 [2; 1] 0; mkRule 2 [1] 0] [(2, true)] []) 200 = true.
+Proof. vm_compute. repeat split; reflexivity. Qed.
+
+Print Assumptions C03_first_sets_closed.
+Print Assumptions C03_closure_closed.
+Print Assumptions C03_build_loop_complete.
+Print Assumptions C03_reference_automaton_ok.
+Print Assumptions C03_la_fix_stable_or_fuel.
+Print Assumptions C03_reference_la_sound.
+Print Assumptions C03_reference_is_LALR1.
+Print Assumptions C03_reference_covers.
+Print Assumptions C03_reference_views_are_LALR1_light.
 Print Assumptions C03_shift_reduce_cell_counts_iff_undecided.
 Print Assumptions C03_reduce_reduce_cell_counts.
 Print Assumptions C03_lalr_la_sound.
